@@ -80,13 +80,27 @@ Qed.
 Theorem C34_prop_ok_sound : forall c, prop_ok c = true ->
   match c with
   | CRead _ _ impl => total impl
-  | CRound _ f d shape elems _ aux_in _ impl =>
-      (f = FNpz /\ (aux_in = [] \/ aux_in = NPY_SUFFIX) /\ exists e, impl = RErr e) \/
-      impl = ROk d shape elems
+  | CRound _ f d shape elems _ aux_in aux_out impl =>
+      match f with
+      | FNpz => (spec_key FNpz aux_in = [] /\ exists e, impl = RErr e) \/
+                (impl = ROk d shape elems /\ aux_out = Some (spec_key FNpz aux_in))
+      | _ => impl = ROk d shape elems
+      end
   | CBig _ d shape _ _ impl => exists e, impl = ROk d shape e
   | CReadOther _ _ cls => cls < 2
+  | CMulti _ f entries wrote rb ra =>
+      let keys := map (fun e => spec_key f (fst e)) entries in
+      if existsb (fun k => list_eqb k []) keys || negb (distinctb keys)
+      then f = FNpz -> wrote = false
+      else multi_ok f entries wrote rb ra
   end.
 Proof. exact prop_ok_sound. Qed.
+
+(* (8) the name specification used by the oracle agrees with the modelled naming rule: the key
+       under which npz::read returns the member created for [name] is [spec_key FNpz name] *)
+Theorem C34_npz_key_is_spec : forall name member,
+  npz_file_name name = Some member -> npz_read_key member = Some (spec_key FNpz name).
+Proof. exact npz_key_is_spec. Qed.
 
 (* non-vacuity: a concrete 2x3 i16 round trip, a Fortran-order big-endian file, and the shape
    that used to overflow the stride computation *)
